@@ -69,6 +69,14 @@ func ValidateServices(i Input) error {
 
 	var errs []error
 
+	// each getter becomes a method of the generated container, so it must be unique
+	getters := make(map[string]int)
+	for _, s := range i.Services {
+		if s.Getter != nil && !ptr.Dereference(s.Todo, DefaultServiceTodo) {
+			getters[*s.Getter]++
+		}
+	}
+
 	for _, n := range maps.Keys(i.Services) {
 		var sErrs []error
 		s := i.Services[n]
@@ -77,6 +85,9 @@ func ValidateServices(i Input) error {
 		if !ptr.Dereference(s.Todo, DefaultServiceTodo) {
 			for _, v := range validators {
 				sErrs = append(sErrs, v(s))
+			}
+			if s.Getter != nil && getters[*s.Getter] > 1 {
+				sErrs = append(sErrs, fmt.Errorf("getter: %+q is used by more than one service", *s.Getter))
 			}
 		}
 		errs = append(errs, grouperror.Prefix(fmt.Sprintf("%+q: ", n), sErrs...))
